@@ -7,13 +7,13 @@ ID = "C02"
 CONFIGS = [("default", True), ("default", False), ("fast", True), ("fast", False)]
 
 META = {
-    "rule": "cases = every program of the bounded typed grammar (families of mc/progs.py) x "
+    "rule": "cases = every program of the bounded typed grammar (families B, I1, S, T, M of mc/progs.py) x "
             "{default,fast} optimizer x {uncompute on,off}, compiled by the real qlassf (internal compiler); "
             "each case is simulated bit-parallel on ALL 2^n basis inputs. A case is non-trivial when some "
             "return bit is non-constant and depends on >= 2 input bits; distinct = distinct tuples of "
             "return-bit truth tables (digest) among non-trivial cases.",
     "bound": {"quick": "B: all trees <=2 ops (all labelings, 2-3 vars), <=3 ops (first-occurrence labelings, <=5 vars), "
-                       "shape templates; I1/S/T quick lists",
+                       "shape templates; I1/S/T quick lists; M: 1 260 straight-line programs with two temporaries",
               "thorough": "B additionally 4 operator nodes over <=4 vars; I1/S/T thorough lists"},
     "assumptions": [
         "bitsim (60-line bit-parallel X/CX/MCX simulator) is the meaning of a classical reversible circuit; "
